@@ -2,6 +2,7 @@ import ShootVerif.Proofs.CtorMain
 import ShootVerif.Model.TParams
 import ShootVerif.Proofs.CtorSelect
 import ShootVerif.Proofs.CtorFresh
+import ShootVerif.Proofs.CtorAmb
 /-!
 C02 — `NewT(args…)` stores every constructor parameter in exactly the field it is named after
 (including fields promoted from embedded structs, built as nested literals, pointer embeds
@@ -127,10 +128,14 @@ theorem C02_value_at_path (t : Tree) (hwf : WF t = true) :
     be pairwise distinct (`userID` next to `UserID` is fine: the generator appends `_` until the name is free) -/
 def WFg (t : Tree) : Bool := wfLevels t && wfFieldNames t && !skipWithDef t
 
-/-- the region the check asserts is exactly `WFg` -/
-theorem regionG_WF_iff (t : Tree) : regionG t = "WF" ↔ WFg t = true := by
+/-- the region the check asserts is exactly `WFg` without ambiguous members; there the list the CODE computes (with the
+    equal-depth rule of 556fe6f) is the `flatten` these theorems are about (`flattenCode_eq`) -/
+theorem regionG_WF_iff (t : Tree) : regionG t = "WF" ↔ (WFg t = true ∧ noAmbiguous t = true) := by
   unfold regionG WFg
-  cases wfLevels t <;> cases wfFieldNames t <;> cases skipWithDef t <;> simp
+  cases wfLevels t <;> cases wfFieldNames t <;> cases skipWithDef t <;> cases noAmbiguous t <;> simp
+
+theorem C02_code_list (t : Tree) (h : regionG t = "WF") : flattenCode t = flatten t :=
+  flattenCode_eq t ((regionG_WF_iff t).mp h).2
 
 /-- `WF` is the special case where no suffix is needed -/
 theorem WF_imp_WFg (t : Tree) (h : WF t = true) : WFg t = true := by
